@@ -4,7 +4,8 @@ Generated shell definitions (vlib/gen/shellspec.py) x value assignments from the
 the argv handed to `pydra.environments.base.execute` (recorder, normal job path, debug worker) is
 compared with the reference argv written from the statement (vlib/ref/argv.py).  Deviations are
 attributed with defect models (gap-filling of positions, separator inside '...' lists, falsy
-scalars dropped); anything a model does not reproduce exactly keeps its own signature.
+scalars dropped, class-form definitions ordered by field name); anything a model does not
+reproduce exactly keeps its own signature.
 """
 from __future__ import annotations
 
@@ -24,9 +25,11 @@ RULE = (
     "cases = (shell definition of 1-5 fields over bool/str/int/float/File/list[str]/list[int]/"
     "MultiInputObj[str] (optional or not, default or mandatory), argstr plain/templated/'...'/"
     "empty/None, position None / small or large non-negative / negative without duplicates, "
-    "separator ' ' ',' ':', executable str or list; one value assignment from the word alphabet "
-    "incl. None, False, 0, 0.0, empty and single-value multi-inputs; append_args). Three "
-    "assignments are drawn per definition. Non-trivial = >= 3 fields contribute arguments and "
+    "separator ' ' ',' ':', executable str, list or tuple (at definition or at instantiation), "
+    "definition written in the functional form shell.define(executable, inputs=...) (2 in 3) or "
+    "as a decorated class (1 in 3, always for a tuple executable); one value assignment from "
+    "the word alphabet incl. None, False, 0, 0.0, empty and single-value multi-inputs; "
+    "append_args). Three assignments are drawn per definition. Non-trivial = >= 3 fields contribute arguments and "
     "(>= 2 position kinds among them or a list-valued field); distinct = canonical case."
 )
 ASSUMPTIONS = [
@@ -41,6 +44,10 @@ ASSUMPTIONS = [
     "a definition-time ValueError 'overlapping positions' (a negative position p is identified "
     "with slot n+1+p) is a clean rejection, counted, not a violation",
     "word alphabet only: quoting/tokenisation of values is C23/C24",
+    "the executable's type is str | Sequence[str]: list and tuple are the sequence types "
+    "generated; a tuple can only be given through the class form or at instantiation because "
+    "shell.define(<non-class>) accepts str and list only (builder.py: 'wrapped must be a class or "
+    "a string')",
     "CrossHair is not installed in this environment; the position_sort helper is checked with "
     "Hypothesis-generated position lists instead (L1, label helper_position_sort)",
 ]
@@ -50,8 +57,9 @@ SIG = {
     R.GAPFILL: "order:unpositioned-fields-fill-position-gaps",
     R.SEPREP: "content:separator-appended-inside-repeated-list",
     R.FALSY: "content:falsy-scalar-dropped",
+    R.CLASSALPHA: "order:class-form-fields-in-alphabetical-order",
 }
-C22_DEFECTS = (R.GAPFILL, R.SEPREP, R.FALSY)
+C22_DEFECTS = (R.GAPFILL, R.SEPREP, R.FALSY, R.CLASSALPHA)
 
 
 def observe(case, d):
@@ -162,8 +170,11 @@ def describe(case):
         labels.append("multi_single_value")
     if case.get("append_args"):
         labels.append("append_args")
-    if isinstance(spec["executable"], list):
-        labels.append("executable_list")
+    form = G.executable_form(case)
+    if form != "str":
+        labels.append("executable_" + form)
+    if case["spec"].get("style") == "class":
+        labels.append("definition_style_class")
     if case.get("executable_override") is not None:
         labels.append("executable_given_at_instantiation")
     if any(R.two_readings(f, rv[f["name"]]) for f in spec["fields"]):
@@ -180,7 +191,8 @@ def run(sh):
                 nt = False
             sh.run_case(case, nontrivial=nt, labels=labels, raise_unattributed=True)
 
-    sh.given(G.cases(G.WORDS, assignments=3), body, sh.budget(1200, 30000), tag="defs")
+    sh.given(G.cases(G.WORDS, assignments=3, styles=("function", "function", "class"),
+                     exe_seqs=("list", "tuple")), body, sh.budget(1200, 30000), tag="defs")
 
     def helper_body(ps):
         case = dict(helper="position_sort", entries=[[p, f"x{i}"] for i, p in enumerate(ps)])
